@@ -517,32 +517,36 @@ def run_check(pid, tier, jobs=None, only=None, keep=False):
                 ev_groups.append(summary)
                 continue
             counted = [o for o in ob if o["kind"] in ("contract", "safety", "internal-safety")]
-            failed = [o for o in counted if o["status"] != "SUCCESS"]
-            internal_failed = [o for o in ob if o["kind"] == "internal" and o["status"] != "SUCCESS"]
+            failed = [o for o in counted if o["status"] == "FAILURE"]
+            unknown = [o for o in counted if o["status"] not in ("SUCCESS", "FAILURE")]
+            internal_failed = [o for o in ob if o["kind"] == "internal" and o["status"] == "FAILURE"]
+            if not failed and not internal_failed and unknown:
+                # cbmc leaves properties UNKNOWN when it could not decide them
+                internal_failed = unknown
             reach = [o for o in ob if o["kind"] == "reach"]
             corefn = set(g.functions) | {g.entry} | set(g.get("core_extra") or [])
             def is_core(o):
                 return (o.get("function") in corefn) or (o["name"].split(".")[0] in corefn)
             core = [o for o in counted if is_core(o)]
-            core_failed = [o for o in core if o["status"] != "SUCCESS"]
+            core_failed = [o for o in core if o["status"] == "FAILURE"]
             summary.update(obligations=len(core), discharged=len(core) - len(core_failed),
                            obligations_incl_linked_code=len(counted), failed_total=len(failed),
                            ignored=len([o for o in ob if o["kind"] == "ignored"]),
                            reach_points=len(reach), contract_obligations=len([o for o in counted if o["kind"] == "contract"]),
                            safety_obligations=len([o for o in counted if o["kind"] != "contract"]),
                            samples=[o["name"] + ": " + o["descr"][:100] for o in ([o for o in core if o["kind"] == "contract"] + core)[:3]])
-            if internal_failed:
+            if internal_failed and not failed:
                 undecided.append((g, "internal obligation failed: " + "; ".join(o["name"] + " " + o["descr"][:80] for o in internal_failed[:4])))
                 summary["status"] = "undecided"
                 ev_groups.append(summary)
                 continue
-            if not g.noreach:
+            if not g.noreach and not failed:
                 if not reach:
                     undecided.append((g, "no REACH assertion in harness (vacuity guard missing)"))
                     summary["status"] = "undecided"
                     ev_groups.append(summary)
                     continue
-                dead = [o for o in reach if o["status"] == "SUCCESS"]
+                dead = [o for o in reach if o["status"] != "FAILURE"]
                 if dead:
                     undecided.append((g, "vacuous: unreachable " + ", ".join(o["descr"] for o in dead)))
                     summary["status"] = "vacuous"
